@@ -11,6 +11,7 @@
 #![allow(clippy::type_complexity)]
 
 use soroban_sdk::testutils::{Address as _, Ledger as _};
+use soroban_sdk::xdr::{LedgerEntry, LedgerEntryData, LedgerKey, Limits, ScVal, WriteXdr};
 use soroban_sdk::{Address, Bytes, BytesN, Env, IntoVal, Map as SMap, String as SString, TryFromVal, Val, Vec as SVec};
 use std::collections::{BTreeMap, BTreeSet};
 use std::fmt::Debug;
@@ -1265,12 +1266,55 @@ struct Docs {
     vars: Vec<u8>,
     uri_probes: bool,
     full_index_scan_up_to: usize,
+    /// ledger entries of the capacity seed (built once per run)
+    snap: std::sync::OnceLock<std::sync::Arc<SeedMap>>,
 }
 
 struct DocInst {
     e: Env,
     c: Address,
     fillers: usize,
+    /// the seed lives in the snapshot source: the state key covers the touched entries only
+    snap: bool,
+}
+
+type SeedMap = BTreeMap<LedgerKey, (LedgerEntry, Option<u32>)>;
+
+struct SeedSource(std::sync::Arc<SeedMap>);
+
+impl soroban_env_host::storage::SnapshotSource for SeedSource {
+    fn get(&self, key: &std::rc::Rc<LedgerKey>) -> Result<Option<soroban_env_host::storage::EntryWithLiveUntil>, soroban_env_host::HostError> {
+        Ok(self.0.get(key.as_ref()).map(|(e, l)| (std::rc::Rc::new(e.clone()), *l)))
+    }
+}
+
+/// State key of an instance whose seed entries live in the snapshot source: every entry the
+/// storage map holds (written, read or REMOVED since the seed), keys and values. Two instances of
+/// the same seed are in the same state iff they agree on all of these.
+fn touched_digest(e: &Env) -> [u8; 32] {
+    use sha2::{Digest, Sha256};
+    let mut h = Sha256::new();
+    for (k, v) in e.host().get_stored_entries().expect("stored entries").iter() {
+        let LedgerKey::ContractData(cd) = k.as_ref() else { continue };
+        if matches!(cd.key, ScVal::LedgerKeyNonce(_)) {
+            continue;
+        }
+        let kb = k.to_xdr(Limits::none()).expect("xdr");
+        h.update((kb.len() as u32).to_be_bytes());
+        h.update(&kb);
+        match v {
+            Some((entry, _)) => {
+                if let LedgerEntryData::ContractData(d) = &entry.data {
+                    let vb = d.val.to_xdr(Limits::none()).expect("xdr");
+                    h.update(b"S");
+                    h.update((vb.len() as u32).to_be_bytes());
+                    h.update(&vb);
+                }
+            }
+            None => h.update(b"R"),
+        }
+    }
+    h.finalize().into()
 }
 
 fn doc_name(e: &Env, id: u16) -> BytesN<32> {
@@ -1302,58 +1346,136 @@ fn set_time(e: &Env, seq: u32) {
 }
 
 impl Docs {
-    /// Seed with `fillers` documents. `direct` writes the entries straight into contract storage
-    /// (through `set_document` the 4 998-document capacity seed costs seconds per instance because
-    /// the test host's storage map copies itself on every write); the layout used is validated
-    /// by `direct_seed_is_faithful` before the capacity world is explored.
-    fn build(&self, fillers: usize, direct: bool) -> (DocInst, BTreeMap<u16, DocVal>) {
+    fn filler(k: usize, fillers: usize) -> (u16, String, u8, u32, u64) {
+        // fillers get distinct timestamps where cheap (the last 200 of them)
+        let seq = START - (fillers - k).min(200) as u32;
+        (100 + k as u16, format!("doc://{}", 100 + k), (k % 251) as u8, seq, 1_700_000_000 + (seq as u64) * 5)
+    }
+
+    /// Seed with `fillers` documents, built through `set_document`.
+    fn build_api(&self, fillers: usize) -> (DocInst, BTreeMap<u16, DocVal>) {
         let e = envx::mk_env(START);
         let c = e.register(wrap::DocWrap, ());
-        let i = DocInst { e, c, fillers };
-        let e = &i.e;
+        let i = DocInst { e, c, fillers, snap: false };
         let mut m = BTreeMap::new();
-        let fill = |direct: bool, m: &mut BTreeMap<u16, DocVal>| {
-            let mut bucket: SVec<(BytesN<32>, dm::Document)> = SVec::new(e);
-            for k in 0..fillers {
-                // fillers get distinct timestamps where cheap (the last 200 of them)
-                let seq = START - (fillers - k).min(200) as u32;
-                let ts = 1_700_000_000 + (seq as u64) * 5;
-                let id = 100 + k as u16;
-                let uri = format!("doc://{id}");
-                let h = (k % 251) as u8;
-                if direct {
-                    let name = doc_name(e, id);
-                    let doc = dm::Document { uri: SString::from_str(e, &uri), document_hash: BytesN::from_array(e, &[h; 32]), timestamp: ts };
+        for k in 0..fillers {
+            let (id, uri, h, seq, ts) = Self::filler(k, fillers);
+            assert!(self.set(&i, id, &uri, h, seq), "seed construction: set_document failed");
+            m.insert(id, (uri, h, ts));
+        }
+        set_time(&i.e, START);
+        (i, m)
+    }
+
+    /// The ledger entries of a `fillers`-document registry, produced WITHOUT running the library:
+    /// chunks of 250 documents are written into scratch environments under the library's own
+    /// (public) storage key and value types and harvested from their storage. Used only for the
+    /// capacity seed; validated against `build_api` by `seed_entries_are_faithful`.
+    fn seed_entries(fillers: usize) -> SeedMap {
+        let mut out = SeedMap::new();
+        let chunk = 5 * DOC_BUCKET;
+        let mut k0 = 0;
+        while k0 < fillers || (fillers == 0 && k0 == 0) {
+            let k1 = (k0 + chunk).min(fillers);
+            let e = envx::mk_env(START);
+            let c = e.register(wrap::DocWrap, ());
+            e.as_contract(&c, || {
+                let mut bucket: SVec<(BytesN<32>, dm::Document)> = SVec::new(&e);
+                for k in k0..k1 {
+                    let (id, uri, h, _, ts) = Self::filler(k, fillers);
+                    let name = doc_name(&e, id);
+                    let doc = dm::Document { uri: SString::from_str(&e, &uri), document_hash: BytesN::from_array(&e, &[h; 32]), timestamp: ts };
                     bucket.push_back((name.clone(), doc));
                     e.storage().persistent().set(&dm::DocumentStorageKey::Index(name), &(k as u32));
                     if bucket.len() as usize == DOC_BUCKET || k + 1 == fillers {
                         e.storage().persistent().set(&dm::DocumentStorageKey::Bucket((k / DOC_BUCKET) as u32), &bucket);
-                        bucket = SVec::new(e);
+                        bucket = SVec::new(&e);
                     }
-                } else {
-                    assert!(self.set(&i, id, &uri, h, seq), "seed construction: set_document failed");
                 }
-                m.insert(id, (uri, h, ts));
+                if k1 == fillers {
+                    e.storage().persistent().set(&dm::DocumentStorageKey::Count, &(fillers as u32));
+                }
+            });
+            for (k, v) in e.host().get_stored_entries().expect("stored entries").iter() {
+                let LedgerKey::ContractData(cd) = k.as_ref() else { continue };
+                if matches!(cd.key, ScVal::LedgerKeyNonce(_) | ScVal::LedgerKeyContractInstance) {
+                    continue;
+                }
+                if let Some((entry, live)) = v {
+                    out.insert(k.as_ref().clone(), (entry.as_ref().clone(), *live));
+                }
             }
-            if direct {
-                e.storage().persistent().set(&dm::DocumentStorageKey::Count, &(fillers as u32));
+            k0 = k1;
+            if fillers == 0 {
+                break;
             }
-        };
-        if direct {
-            e.as_contract(&i.c, || fill(true, &mut m));
-        } else {
-            fill(false, &mut m);
         }
-        set_time(e, START);
-        (i, m)
+        out
     }
 
+    /// Capacity seed: the entries live in the environment's snapshot source and are loaded into the
+    /// host's storage map only when touched (the map copies itself on every write, so a map that
+    /// holds one entry per document makes every instance cost seconds).
+    #[allow(deprecated)]
+    fn build_snapshot(&self, fillers: usize) -> (DocInst, BTreeMap<u16, DocVal>) {
+        let entries = self.snap.get_or_init(|| std::sync::Arc::new(Self::seed_entries(fillers))).clone();
+        let src = std::rc::Rc::new(SeedSource(entries));
+        let mut e = Env::from_ledger_snapshot(soroban_sdk::testutils::SnapshotSourceInput { source: src, ledger_info: None, snapshot: None });
+        e.set_config(soroban_sdk::testutils::EnvTestConfig { capture_snapshot_at_drop: false });
+        // same settings as vh::envx::mk_env
+        e.ledger().set(soroban_sdk::testutils::LedgerInfo {
+            timestamp: 1_700_000_000 + (START as u64) * 5,
+            protocol_version: e.ledger().protocol_version(),
+            sequence_number: START,
+            network_id: [7u8; 32],
+            base_reserve: 10,
+            min_temp_entry_ttl: 1,
+            min_persistent_entry_ttl: envx::PERSISTENT_TTL,
+            max_entry_ttl: envx::MAX_ENTRY_TTL,
+        });
+        e.host().set_diagnostic_level(soroban_env_host::DiagnosticLevel::None).expect("diag");
+        e.cost_estimate().budget().reset_unlimited();
+        e.cost_estimate().disable_resource_limits();
+        let c = e.register(wrap::DocWrap, ());
+        let mut m = BTreeMap::new();
+        for k in 0..fillers {
+            let (id, uri, h, _, ts) = Self::filler(k, fillers);
+            m.insert(id, (uri, h, ts));
+        }
+        (DocInst { e, c, fillers, snap: true }, m)
+    }
+
+    fn build(&self, fillers: usize, direct: bool) -> (DocInst, BTreeMap<u16, DocVal>) {
+        if direct {
+            self.build_snapshot(fillers)
+        } else {
+            self.build_api(fillers)
+        }
+    }
+
+    /// Are the harvested entries exactly what `set_document` stores (keys and values)?
     fn direct_seed_is_faithful(&self) -> bool {
-        let (a, _) = self.build(120, false);
-        let (b, _) = self.build(120, true);
-        let same = envx::storage_digest(&a.e, false) == envx::storage_digest(&b.e, false);
-        let n: Option<u32> = getv(&b.e, &b.c, "get_document_count", no_args(&b.e));
-        same && n == Some(120)
+        let n = 120;
+        let (a, _) = self.build_api(n);
+        let mut api: BTreeMap<LedgerKey, ScVal> = BTreeMap::new();
+        for (k, v) in a.e.host().get_stored_entries().expect("stored entries").iter() {
+            let LedgerKey::ContractData(cd) = k.as_ref() else { continue };
+            if matches!(cd.key, ScVal::LedgerKeyNonce(_) | ScVal::LedgerKeyContractInstance) {
+                continue;
+            }
+            if let Some((entry, _)) = v {
+                if let LedgerEntryData::ContractData(d) = &entry.data {
+                    api.insert(k.as_ref().clone(), d.val.clone());
+                }
+            }
+        }
+        let mut mine: BTreeMap<LedgerKey, ScVal> = BTreeMap::new();
+        for (k, (entry, _)) in Self::seed_entries(n).iter() {
+            if let LedgerEntryData::ContractData(d) = &entry.data {
+                mine.insert(k.clone(), d.val.clone());
+            }
+        }
+        !api.is_empty() && api == mine
     }
 
     fn set(&self, i: &DocInst, name: u16, uri: &str, h: u8, seq: u32) -> bool {
@@ -1578,7 +1700,11 @@ impl World for Docs {
     }
 
     fn key(&self, i: &DocInst) -> [u8; 32] {
-        envx::storage_digest(&i.e, false)
+        if i.snap {
+            touched_digest(&i.e)
+        } else {
+            envx::storage_digest(&i.e, false)
+        }
     }
     fn model_digest(&self, m: &BTreeMap<u16, DocVal>) -> u64 {
         dig(m)
@@ -1589,7 +1715,7 @@ fn doc_worlds(tier: Tier) -> Vec<(Docs, usize)> {
     let th = tier == Tier::Thorough;
     let mut v = vec![
         (
-            Docs { name: "documents", seeds: vec![0], universe: vec![0, 1, 2], vars: vec![0, 1], uri_probes: true, full_index_scan_up_to: 1000 },
+            Docs { name: "documents", seeds: vec![0], universe: vec![0, 1, 2], vars: vec![0, 1], uri_probes: true, full_index_scan_up_to: 1000, snap: Default::default() },
             tier.pick(5, 6),
         ),
         (
@@ -1600,13 +1726,12 @@ fn doc_worlds(tier: Tier) -> Vec<(Docs, usize)> {
                 vars: vec![0],
                 uri_probes: false,
                 full_index_scan_up_to: 1000,
+                snap: Default::default(),
             },
             tier.pick(3, 4),
         ),
     ];
-    if th {
-        // thorough tier only: one instance of the 4 998-document seed costs several seconds (the
-        // test host's storage map is copied on every write and holds one entry per document)
+    {
         v.push((
             Docs {
                 name: "documents-capacity",
@@ -1615,8 +1740,9 @@ fn doc_worlds(tier: Tier) -> Vec<(Docs, usize)> {
                 vars: vec![0],
                 uri_probes: false,
                 full_index_scan_up_to: 0,
+                snap: Default::default(),
             },
-            2,
+            tier.pick(3, 4),
         ));
     }
     v
@@ -2312,7 +2438,7 @@ pub fn run(tier: Tier, r: &mut Runner) {
         if r.exploring() && w.seeds.iter().any(|n| *n > DIRECT_SEED_ABOVE) && !w.direct_seed_is_faithful() {
             if let Some(rep) = r.report() {
                 rep.note(&format!(
-                    "{}: SKIPPED — the capacity seed is written directly into storage and the document manager's storage layout no longer matches (a 120-document state built through set_document differs); exact enforcement of MAX_DOCUMENTS was not explored",
+                    "{}: SKIPPED — the capacity seed is assembled from ledger entries written under the document manager's public storage types and that layout no longer matches (a 120-document state built through set_document differs); exact enforcement of MAX_DOCUMENTS was not explored",
                     w.name
                 ));
             }
